@@ -20,6 +20,13 @@ Definition chunk_len (x : N) : N := x mod 1099511627776.
 Definition byte_len (bytes_mode : bool) (c : data) : N :=
   if bytes_mode then nlen c else fold_left (fun a x => a + chunk_len x) c 0.
 
+(** A run of writes in chunk mode: ids are consecutive from [seq]. *)
+Fixpoint WS (fd seq : N) (lens : list N) : list op :=
+  match lens with
+  | [] => []
+  | l :: r => W fd (if l =? 0 then [] else [seq * 1099511627776 + l]) :: WS fd (seq + 1) r
+  end.
+
 Inductive case :=
   (* dst; further names that may remain; files present at the start; the
      recorded operations; byte mode (every element is a byte) or chunk mode;
@@ -62,7 +69,7 @@ Definition explain (c : case) :=
       let s := boot ents in
       let av := all_versions s t dst in
       (checks c, first_unsafe dst s t 0,
-       filter (fun p => match dir_cur (run s t) p with Some _ => negb (existsb (N.eqb p) (dst :: keep)) | None => false end)
+       filter (fun p => match aget (dir_cur (run s t)) p with Some _ => negb (existsb (N.eqb p) (dst :: keep)) | None => false end)
               (created s t),
        map (option_map (byte_len bm)) av,
        if bm then filter (fun v => negb (mem_odata v av)) (visible_states s t dst) else [])
